@@ -22,6 +22,15 @@ theorem sgn_mul_self (v : ℝ) : sgn v * v = |v| := by
   · simp [h, sgn_zero]
   · simp [sgn_of_pos h, abs_of_pos h]
 
+/-- `1` where `u < v`, `0` elsewhere (a NumPy comparison as a number).  The three selectors are separate
+functions so that unfolding them after their arguments have been evaluated leaves conditions (and their
+decidability instances) about the evaluated arguments. -/
+noncomputable def indLt (u v : ℝ) : ℝ := if u < v then 1 else 0
+/-- `np.logical_not` as a number -/
+noncomputable def indZero (u : ℝ) : ℝ := if u = 0 then 1 else 0
+/-- `np.where(c, u, v)` -/
+noncomputable def sel (c u v : ℝ) : ℝ := if c = 0 then v else u
+
 namespace Expr
 
 /-- Evaluation over ℝ at data value `x`, extra parameter `p`, model value `m`. -/
@@ -42,10 +51,10 @@ noncomputable def evalR (x p : ℝ) : Expr → ℝ → ℝ
   | exp a, m => Real.exp (a.evalR x p m)
   | abs a, m => |a.evalR x p m|
   | sign a, m => sgn (a.evalR x p m)
-  | lt a b, m => if a.evalR x p m < b.evalR x p m then 1 else 0
-  | lnot a, m => if a.evalR x p m = 0 then 1 else 0
+  | lt a b, m => indLt (a.evalR x p m) (b.evalR x p m)
+  | lnot a, m => indZero (a.evalR x p m)
   | sqrt a, m => Real.sqrt (a.evalR x p m)
-  | ite c a b, m => if c.evalR x p m = 0 then b.evalR x p m else a.evalR x p m
+  | ite c a b, m => sel (c.evalR x p m) (a.evalR x p m) (b.evalR x p m)
 
 /-- Where the expression is a differentiable function of the model value in the way the
 differentiator assumes: no division by zero, logarithms, square roots and real powers of
@@ -87,8 +96,8 @@ theorem evalR_noVar (x p : ℝ) (e : Expr) : e.noVar = true → ∀ m m', e.eval
 
 theorem evalR_isBool (x p : ℝ) (e : Expr) : e.isBool = true → ∀ m, e.evalR x p m = 0 ∨ e.evalR x p m = 1 := by
   induction e with
-  | lt a b _ _ => intro _ m; simp only [evalR]; split <;> simp
-  | lnot a _ => intro _ m; simp only [evalR]; split <;> simp
+  | lt a b _ _ => intro _ m; simp only [evalR, indLt]; split <;> simp
+  | lnot a _ => intro _ m; simp only [evalR, indZero]; split <;> simp
   | mul a b iha ihb =>
       intro h m
       simp only [isBool, Bool.and_eq_true] at h
@@ -101,8 +110,8 @@ theorem evalR_isBool (x p : ℝ) (e : Expr) : e.isBool = true → ∀ m, e.evalR
 theorem evalR_lnot_of_isBool (x p : ℝ) (e : Expr) (h : e.isBool = true) (m : ℝ) :
     (lnot e).evalR x p m = 1 - e.evalR x p m := by
   rcases evalR_isBool x p e h m with h0 | h1
-  · simp [evalR, h0]
-  · simp [evalR, h1]
+  · simp [evalR, indZero, h0]
+  · simp [evalR, indZero, h1]
 
 private theorem hasDerivAt_sgn {f : ℝ → ℝ} {f' m : ℝ} (hf : HasDerivAt f f' m) (h0 : f m ≠ 0) :
     HasDerivAt (fun y => sgn (f y)) 0 m := by
@@ -211,13 +220,13 @@ theorem hasDerivAt_D_and_const (x p : ℝ) (e : Expr) :
       · have hb : b.Defined x p m := by simpa [h0] using h.2.2
         have := (ihb.1 m hb).congr_of_eventuallyEq (f₁ := fun y => (ite c a b).evalR x p y) (by
           filter_upwards [hev] with y hy
-          simp only [evalR, hy, h0, if_true])
-        simpa [evalR, D, h0] using this
+          simp only [evalR, sel, hy, h0, if_true])
+        simpa [evalR, D, sel, h0] using this
       · have ha : a.Defined x p m := by simpa [h0] using h.2.2
         have := (iha.1 m ha).congr_of_eventuallyEq (f₁ := fun y => (ite c a b).evalR x p y) (by
           filter_upwards [hev] with y hy
-          simp only [evalR, hy, h0, if_false])
-        simpa [evalR, D, h0] using this
+          simp only [evalR, sel, hy, h0, if_false])
+        simpa [evalR, D, sel, h0] using this
 
 /-- **The differentiator is correct**: wherever the expression is `Defined`, the function
 `m ↦ evalR e x p m` has derivative `evalR (D e) x p m` at `m`. -/
